@@ -3,6 +3,7 @@ package props
 import (
 	"fmt"
 	"math/big"
+	"strings"
 	"sync"
 	"testing"
 
@@ -309,7 +310,9 @@ func runTinyEnum[C any](t *testing.T, col *stats.Collector, prop, test string, r
 		res := run(c)
 		if res.Msg != "" {
 			if msg := handle(col, prop, test, c, res); msg != "" {
-				fmt.Printf("VIOLATION property=%s replay=%s\n", prop, replayPath(prop, test))
+				if !strings.HasPrefix(msg, "HARNESS-ERROR") {
+					fmt.Printf("VIOLATION property=%s replay=%s\n", prop, replayPath(prop, test))
+				}
 				t.Errorf("%s", msg)
 				return false
 			}
